@@ -545,6 +545,22 @@ def _verus_eg(prop: str, which, feats="") -> List[Obl]:
     return out
 
 
+def _verus_delta(prop: str, which, feats="") -> List[Obl]:
+    out = []
+    for fn, src in which:
+        out.append(Obl(id=f"{prop.lower()}.verus.delta.{fn}" + (".checks" if feats else ""), prop=prop, engine="verus", target=f"delta:{fn}", fns=[src] if src else [],
+                       features=feats,
+                       note="every value below 2^64-1, both bit orders, Seq<bool> stream contract; " + ("checks" if feats else "default") + " configuration; the gamma prefix "
+                            "(write_gamma_param / read_gamma_param / len_gamma_param) by contract (default implementation proved in the exp_golomb unit, table variants by Kani); "
+                            "delta tables: Kani C05"))
+    return out
+
+
+V_D_W = ("default_write_delta", "codes::delta::default_write_delta (write_delta, write_delta_param)")
+V_D_R = ("default_read_delta", "codes::delta::default_read_delta (read_delta, read_delta_param)")
+V_D_L = ("len_delta_param", "codes::delta::len_delta_param::<false, _> (len_delta without the delta length table)")
+V_D_LEMMAS = [(l, "") for l in ("lemma_delta_lambda", "lemma_delta_split", "lemma_delta_pre", "lemma_delta_q", "lemma_delta_r")]
+
 V_G2_W = ("default_write_gamma", "codes::gamma::default_write_gamma")
 V_G2_R = ("default_read_gamma", "codes::gamma::default_read_gamma")
 V_G2_L = ("len_gamma_param", "codes::gamma::len_gamma_param::<false>")
@@ -592,11 +608,11 @@ def _c03_compose() -> List[Obl]:
 
 
 def _c03() -> List[Obl]:
-    return _c03_compose() + (_verus_golomb("C03", [V_MB_W, V_MB_R, V_G_W, V_G_R] + V_LEMMAS) + _stdspec("C03", ["ilog2"]) + _verus_rice("C03", [V_R_W, V_R_R] + V_R_LEMMAS) + _verus_zeta("C03", [V_Z_W, V_Z_R] + V_Z_LEMMAS) + _verus_pi("C03", [V_P_W, V_P_R] + V_P_LEMMAS) + _verus_eg("C03", [V_G2_W, V_G2_R, V_E_W, V_E_R] + V_E_LEMMAS) +_codes("C03", r"c03|contract", [(RT_BASE, None), (RT_K, RT_K_QUICK)]) + _golomb("C03", r"c03|contract", ["rt", "mb_rt"]))
+    return _c03_compose() + (_verus_golomb("C03", [V_MB_W, V_MB_R, V_G_W, V_G_R] + V_LEMMAS) + _stdspec("C03", ["ilog2"]) + _verus_rice("C03", [V_R_W, V_R_R] + V_R_LEMMAS) + _verus_zeta("C03", [V_Z_W, V_Z_R] + V_Z_LEMMAS) + _verus_pi("C03", [V_P_W, V_P_R] + V_P_LEMMAS) + _verus_eg("C03", [V_G2_W, V_G2_R, V_E_W, V_E_R] + V_E_LEMMAS) + _verus_delta("C03", [V_D_W, V_D_R] + V_D_LEMMAS) +_codes("C03", r"c03|contract", [(RT_BASE, None), (RT_K, RT_K_QUICK)]) + _golomb("C03", r"c03|contract", ["rt", "mb_rt"]))
 
 
 def _c04() -> List[Obl]:
-    return (_verus_golomb("C04", [V_MB_W, V_G_W, ("lemma_limit", "")]) + _stdspec("C04", ["ilog2"]) + _verus_rice("C04", [V_R_W]) + _verus_zeta("C04", [V_Z_W, ("lemma_zeta_params", "")]) + _verus_pi("C04", [V_P_W, ("lemma_pi_lambda", "")]) + _verus_eg("C04", [V_G2_W, V_E_W, ("lemma_eg_quot", "")]) +_codes("C04", r"c04|contract", [(DEF_H, None)]) + _codes("C04", r"c04|contract", [(CHECKS_DEF_H, {"def_omega", "def_rice"})], feats="checks")
+    return (_verus_golomb("C04", [V_MB_W, V_G_W, ("lemma_limit", "")]) + _stdspec("C04", ["ilog2"]) + _verus_rice("C04", [V_R_W]) + _verus_zeta("C04", [V_Z_W, ("lemma_zeta_params", "")]) + _verus_pi("C04", [V_P_W, ("lemma_pi_lambda", "")]) + _verus_eg("C04", [V_G2_W, V_E_W, ("lemma_eg_quot", "")]) + _verus_delta("C04", [V_D_W, ("lemma_delta_lambda", "")]) +_codes("C04", r"c04|contract", [(DEF_H, None)]) + _codes("C04", r"c04|contract", [(CHECKS_DEF_H, {"def_omega", "def_rice"})], feats="checks")
             + _golomb("C04", r"c04|contract", ["def", "mb_def"]))
 
 
@@ -627,7 +643,7 @@ def _len_objects(prop: str) -> List[Obl]:
 
 
 def _c06() -> List[Obl]:
-    return _len_objects("C06") + (_verus_golomb("C06", [V_MB_L, V_G_L, V_MB_W, V_G_W, V_MB_R, V_G_R, ("lemma_limit", ""), ("lemma_golomb_no_overflow", "")]) + _stdspec("C06", ["ilog2"]) + _verus_rice("C06", [V_R_L, V_R_W, V_R_R, ("lemma_rice_no_overflow", "")]) + _verus_zeta("C06", [V_Z_L, V_Z_W, V_Z_R, ("lemma_zeta_params", "")]) + _verus_pi("C06", [V_P_L, V_P_W, V_P_R, ("lemma_pi_small", "")]) + _verus_eg("C06", [V_G2_L, V_G2_W, V_G2_R, V_E_L, V_E_W, V_E_R, ("lemma_eg_quot", "")]) +_codes("C06", r"c06", [(LEN_H, None), (DEF_H, None)]) + _golomb("C06", r"c06", ["len", "def"])
+    return _len_objects("C06") + (_verus_golomb("C06", [V_MB_L, V_G_L, V_MB_W, V_G_W, V_MB_R, V_G_R, ("lemma_limit", ""), ("lemma_golomb_no_overflow", "")]) + _stdspec("C06", ["ilog2"]) + _verus_rice("C06", [V_R_L, V_R_W, V_R_R, ("lemma_rice_no_overflow", "")]) + _verus_zeta("C06", [V_Z_L, V_Z_W, V_Z_R, ("lemma_zeta_params", "")]) + _verus_pi("C06", [V_P_L, V_P_W, V_P_R, ("lemma_pi_small", "")]) + _verus_eg("C06", [V_G2_L, V_G2_W, V_G2_R, V_E_L, V_E_W, V_E_R, ("lemma_eg_quot", "")]) + _verus_delta("C06", [V_D_L, V_D_W, V_D_R, ("lemma_delta_lambda", "")]) +_codes("C06", r"c06", [(LEN_H, None), (DEF_H, None)]) + _golomb("C06", r"c06", ["len", "def"])
             + _codes("C06", r"bits consumed", [(["rt_gamma", "rt_delta", "rt_omega", "rt_zeta3", "rt_vbyte_be", "rt_zeta_k2", "rt_pi_k2", "rt_exp_golomb_k1"], None)]))
 
 
@@ -980,6 +996,7 @@ def _c19() -> List[Obl]:
     out += _verus_rice("C19", [V_R_W, ("lemma_mask128", ""), ("lemma_masked_field", "")], feats="checks")
     out += _verus_pi("C19", [V_P_W, ("lemma_xor_top", "")], feats="checks")
     out += _verus_eg("C19", [V_G2_W, V_E_W], feats="checks")
+    out += _verus_delta("C19", [V_D_W], feats="checks")
     # the word-level writer / copy units under the checks configuration (write_bits requires and is given clean values)
     for w in WWORDS:
         for el, E in ENDIANS:
